@@ -1,5 +1,6 @@
 """Concrete semantics of value trees (EVM word arithmetic), an evaluator and a reference constant folder."""
 import hashlib
+import json
 
 M = (1 << 256)
 MASK = M - 1
@@ -127,7 +128,15 @@ def evaluate(t, rho, wide_modulo=False):
         return cval(t)
     if tag == "v":
         return rho(t[1])
+    if tag == "packed":
+        return uninterpreted("packed", [x for e in t[1:] if isinstance(e, list)
+                                        for x in (e[0], e[1], evaluate(e[2], rho))])
     kids = children(t)
+    if tag == "cd":
+        return uninterpreted("cd:%s" % t[1], [evaluate(k, rho) for k in kids])
+    if tag in ("mapix", "subword", "shifted"):
+        meta = [c for c in t[1:] if isinstance(c, dict)]
+        tag = tag + json.dumps(meta, sort_keys=True)
     if tag in BIN and len(kids) == 2:
         return BIN[tag](evaluate(kids[0], rho), evaluate(kids[1], rho))
     if tag in UN and len(kids) == 1:
@@ -144,6 +153,8 @@ def fold_ref(t):
     tag = t[0]
     if tag in ("k", "v"):
         return t
+    if tag == "packed":
+        return ["packed"] + [[e[0], e[1], fold_ref(e[2])] if isinstance(e, list) else e for e in t[1:]]
     new = [tag]
     for c in t[1:]:
         new.append(fold_ref(c) if isinstance(c, list) else c)
@@ -174,6 +185,10 @@ def leaf_names(t, acc=None):
     if isinstance(t, list) and t:
         if t[0] == "v":
             acc.add(t[1])
+        elif t[0] == "packed":
+            for e in t[1:]:
+                if isinstance(e, list):
+                    leaf_names(e[2], acc)
         else:
             for c in t[1:]:
                 leaf_names(c, acc)
